@@ -107,7 +107,32 @@ DecodeAll(cap, s) ==
       f == FinalizeOut(r.d)
   IN IF f.k = "disc" THEN Append(evs, <<Len(s), 2, f.n>>) ELSE evs
 
-\* C15 at the level of the specification: the three driving loops agree modulo Events.Norm
+(***************************************************************************)
+(* DecodeIterator::next (decode.rs:500-523): state [d, i, done]; pull bytes *)
+(* until a result; when the input is exhausted call finalize once, set     *)
+(* `done`, and return None ever after.  IterObs collects the results of    *)
+(* repeated calls until `extra` Nones were seen (event kind 10).           *)
+(***************************************************************************)
+RECURSIVE ItNext(_, _, _, _)
+ItNext(d, s, i, done) ==
+  IF done THEN [d |-> d, i |-> i, done |-> TRUE, ev |-> <<i - 1, 10>>]
+  ELSE IF i > Len(s)
+  THEN LET f == FinalizeOut(d) IN
+       [d |-> ResetD(d), i |-> i, done |-> TRUE,
+        ev |-> IF f.k = "disc" THEN <<i - 1, 2, f.n>> ELSE <<i - 1, 10>>]
+  ELSE LET r == Step(d, s[i]) IN
+       IF r.out.k = "none" THEN ItNext(r.d, s, i + 1, FALSE)
+       ELSE [d |-> r.d, i |-> i + 1, done |-> FALSE, ev |-> EvOfOut(i, r.out)]
+
+IterObs(cap, s, extra) ==
+  LET RECURSIVE Go(_, _, _, _, _, _)
+      Go(d, i, done, acc, nones, fuel) ==
+        IF nones > extra \/ fuel = 0 THEN acc
+        ELSE LET r == ItNext(d, s, i, done) IN
+             Go(r.d, r.i, r.done, Append(acc, r.ev), IF r.ev[2] = 10 THEN nones + 1 ELSE nones, fuel - 1)
+  IN Go(InitDec(cap), 1, FALSE, <<>>, 0, Len(s) + 8)
+
+\* C15 at the level of the specification: the four driving loops agree modulo Events.Norm
 PushObs(cap, s) ==
   LET r == Run(InitDec(cap), s)
       evs == [k \in 1..Len(r.evs) |-> EvOfOut(r.evs[k][1], r.evs[k][2])]
@@ -122,9 +147,10 @@ ReaderObs(cap, s) ==
   IN Go(InitDec(cap), 1, <<>>, Len(s) + 4)
 
 FrontEndsAgree(cap, s) ==
-  LET p == Norm(1, PushObs(cap, s)) w == Norm(2, DecodeAll(cap, s)) r == Norm(4, ReaderObs(cap, s)) IN
-  /\ p.wf /\ w.wf /\ r.wf
-  /\ ResNoPos(p) = ResNoPos(w) /\ ResNoPos(p) = ResNoPos(r)
-  /\ p.left = w.left /\ p.left = r.left
-  /\ ResPos(p) = ResPos(r)
+  LET p == Norm(1, PushObs(cap, s)) w == Norm(2, DecodeAll(cap, s)) r == Norm(4, ReaderObs(cap, s))
+      it == Norm(3, IterObs(cap, s, 2)) IN
+  /\ p.wf /\ w.wf /\ r.wf /\ it.wf
+  /\ ResNoPos(p) = ResNoPos(w) /\ ResNoPos(p) = ResNoPos(r) /\ ResNoPos(p) = ResNoPos(it)
+  /\ p.left = w.left /\ p.left = r.left /\ p.left = it.left
+  /\ ResPos(p) = ResPos(r) /\ ResPos(p) = ResPos(it)
 =============================================================================
